@@ -30,7 +30,7 @@ ASSUMPTIONS = [
     "no worker is killed from outside; task bodies are pure functions of the id",
     "the 1800 s watchdog is replaced by hang detection: parent can only poll and nobody else can move = violation",
 ]
-BUDGET = {"quick": 90, "thorough": 2400}
+BUDGET = {"quick": 240, "thorough": 2400}
 KEEP_ORDER = False
 
 
@@ -99,10 +99,24 @@ class Execution:
         par.faulthandler = _Nop()
         par.os = types.SimpleNamespace(kill=lambda *a: None)
         raising = set(cfg["raising"])
+        flaky = {int(i): (k, how) for i, k, how in cfg.get("flaky", [])}
+        attempts = collections.Counter()
 
         def f(dev_id):
             if dev_id in raising:
                 raise TaskError("boom-%s" % dev_id)
+            if dev_id in flaky:
+                # a task whose connection drops: the first k attempts (k = -1: every attempt) end in a network error,
+                # raised directly or as the context of another exception; annet retries such a task net_retry times
+                k, how = flaky[dev_id]
+                attempts[dev_id] += 1
+                if k < 0 or attempts[dev_id] <= k:
+                    if how == "wrapped":
+                        try:
+                            raise BrokenPipeError("pipe-%s" % dev_id)
+                        except BrokenPipeError:
+                            raise TaskError("net-%s" % dev_id)
+                    raise ConnectionResetError("net-%s" % dev_id)
             return payload(dev_id)
 
         def cb(pool, task_result):
@@ -111,6 +125,7 @@ class Execution:
 
         def root():
             p = par.Parallel(f).tune(parallel=cfg["pool"], max_tasks=cfg["max_tasks"])
+            self.net_retry = p.net_retry
             if cfg.get("callback"):
                 p.add_callback(cb)
             if cfg.get("in_thread_callback"):
@@ -149,6 +164,11 @@ class Execution:
             return out
         if s.verdict in ("pruned",):
             return out
+        # a flaky task fails for good iff it needs more attempts than 1 + net_retry (the pool's documented retry count,
+        # read from the Parallel object as data); its failure carries the network error's text
+        nr = getattr(self, "net_retry", 3)
+        net_fail = {int(i) for i, k, how in cfg.get("flaky", []) if k < 0 or k > nr}
+        raising = raising | net_fail
         if s.verdict == "deadlock":
             parked = sorted((t.name, t.op[0]) for t in s.threads if not t.done and not t.killed)
             kind = "hang" if any(op == "poll" for _, op in parked) else "deadlock"
@@ -174,7 +194,7 @@ class Execution:
         got_ids = [d[0] for d in self.delivered]
         for (i, res, exc) in self.delivered:
             if i in raising:
-                if exc != "boom-%s" % i or res is not None:
+                if exc != ("net-%s" if i in net_fail else "boom-%s") % i or res is not None:
                     out.append(({"kind": "payload", "what": "failure-not-reported"}, repr((i, res, exc))))
             elif res != payload(i) or exc is not None:
                 out.append(({"kind": "payload", "what": "wrong-value"}, repr((i, res, exc))))
@@ -194,7 +214,7 @@ class Execution:
                 out.append(({"kind": "irun-raised", "exc": self.end[1]}, repr(self.end)))
             else:
                 msg = self.end[2]
-                if self.end[1] != "PickleSafeException" or msg not in {"boom-%s" % i for i in raising}:
+                if self.end[1] != "PickleSafeException" or msg not in {("net-%s" if i in net_fail else "boom-%s") % i for i in raising}:
                     out.append(({"kind": "irun-raised-wrong-exception", "exc": self.end[1]}, repr(self.end)))
         return out
 
@@ -335,6 +355,14 @@ def cfgs(tier):
     for n, pool in ((0, 2), (1, 2), (2, 1), (3, 1)):
         add(full, n, pool, 25)
         add(full, n, pool, 1, raising=(0,) if n else ())
+    # tasks whose connection drops: retried up to net_retry times (in-process path and pool path, success after a
+    # transient error, failure when every attempt fails, error raised directly or as the context of another one)
+    for pool in (1, 2):
+        add(full, 2, pool, 25, flaky=[[0, 1, "direct"]])
+        add(full, 2, pool, 25, flaky=[[1, -1, "direct"]])
+        add(full, 2, pool, 25, flaky=[[0, -1, "wrapped"], [1, 3, "wrapped"]])
+        add(full, 2, pool, 25, flaky=[[0, 4, "direct"]], tolerate=0)
+    add(full, 2, 2, 1, flaky=[[1, -1, "direct"]], api="run")
     if tier == "quick":
         for mt in (1, 25):
             add(full, 2, 2, mt)
